@@ -328,7 +328,8 @@ pub fn run(a: &Args) -> Report {
     let n = (if a.quick() { 16000 } else { 320_000 }) / a.nshards.max(1);
     let mut rng = Rng::new(mix(a.seed, 0xc02 + a.shard));
     for _ in 0..n {
-        scenario(&mut r, rng.u64());
+        let s = rng.u64();
+        super::guarded(&mut r, json!({"class":"byzantine","seed":s.to_string()}), |r| scenario(r, s));
         r.count("scenarios");
     }
     r
